@@ -32,7 +32,7 @@ REAL = ["bec2format.bf3file (parse_bf2_file, bf2_import, exec_bf2instrs, bf2_unp
         "annotations, pfid2_filter_to_str)", "bec2format.hwcids"]
 STUBS = ["medium: SimFS (text layer, CRLF)", "BF2 generator + ground truth + RefBF2 (sim/bf2gen.py)", "filter-expression "
          "evaluator (this file)"]
-PROBES = ["runs-with-assertions-disabled", "unknown-tag-type", "whole-page-lost", "middle-page-lost", "page-crossing", "gap-before-last-line", "gap-at-first-line", "lost-last-line", "dup-line", "swap-lines",
+PROBES = ["runs-with-assertions-disabled", "crlf-untranslated", "unknown-tag-type", "whole-page-lost", "middle-page-lost", "page-crossing", "gap-before-last-line", "gap-at-first-line", "lost-last-line", "dup-line", "swap-lines",
           "ignored-section", "no-marker", "blob-gap-rejected", "bf2compat-faulted", "memimage-helper", "filter-expression",
           "three-types-sorted", "crlf"]
 ASSUMPTIONS = ["hardware-id names used in comparisons are transcribed into sim/bf2gen.py"]
@@ -61,7 +61,7 @@ def gen(st, tier):
             kind, si = "lostpage", f.choice(multi)
         fault = [kind, si, f.choice(["first", "last", "last-1", "second", "page", "frac"]),
                  f.random(), f.random()]
-    return {"bf2": spec, "fault": fault, "via": w.choice(["path", "stream"])}
+    return {"bf2": spec, "fault": fault, "via": w.choice(["path", "stream", "stream-raw"])}
 
 
 # --------------------------------------------------------------------------
@@ -185,6 +185,8 @@ def run(case):
         surviving = None
         if spec.get("crlf"):
             out.probes["crlf"] += 1
+            if case["via"] == "stream-raw":
+                out.probes["crlf-untranslated"] += 1
         if any(bf2gen.TAGTYPES.get(s["tt"], 0) is None for s in spec["sections"]):
             out.probes["ignored-section"] += 1
         unknown = [s["tt"] for s in spec["sections"] if bf2gen.is_unknown(s["tt"])]
@@ -257,7 +259,9 @@ def run(case):
         def imp():
             if case["via"] == "path":
                 return env.bf3file.Bf3File.bf2_import(name)
-            h = fs.open(name, "r")
+            # "stream-raw": the caller opened the file with newline="" (or holds the text in a StringIO): CRLF
+            # line ends reach the parser untranslated
+            h = fs.open(name, "r", newline="" if case["via"] == "stream-raw" else None)
             try:
                 return env.bf3file.Bf3File.bf2_import(h)
             finally:
